@@ -17,7 +17,7 @@ RULE = ("programs: Hypothesis build programs (<= 8 items per circuit, nesting <=
         "to the operation listing; the export, with REPEAT blocks expanded and fused targets split, must equal the "
         "listing translated one by one with every sub-circuit expanded in place and repeated its count; unsupported kinds "
         "omitted, nothing else present; the instruction multiset must also equal the translation of the program's own "
-        "items x enclosing counts (annotations keep their fields through every copy); after apply_modifiers() the export equals the translated (now count-free) "
+        "items x enclosing counts (annotations keep their fields through every copy); in about half of the cases the unfinished circuit is also exported once before a generated top-level item is added (that export = translated listing of the prefix) and the finished object is exported once more after it was unrolled; after apply_modifiers() the export equals the translated (now count-free) "
         "listing, and has the same instruction multiset and measurement count as before. library: repetition-code "
         "circuits d=2..4, 0..6 cycles: identical expanded program before / after unrolling. Non-trivial = >= 1 "
         "unsupported kind, >= 1 annotation and >= 1 nested block; distinct = canonical JSON.")
@@ -215,7 +215,10 @@ def cfg():
 
 
 def strat():
-    return P.program_strategy(cfg()).map(repair_annotations)
+    from hypothesis import strategies as st
+    # early: export the unfinished circuit once before the top-level item of that number is added (None: single export)
+    return st.fixed_dictionaries({"program": P.program_strategy(cfg()).map(repair_annotations),
+                                  "early": st.none() | st.integers(0, 7)})
 
 
 def first_diff(a, b):
@@ -235,7 +238,10 @@ def multiset(tokens):
 def body(case, ctx):
     from qce_circuit.addon_stim.factory_manager import to_stim
     validate_table()
-    program = case
+    # (older replay files hold the bare program)
+    program, early = (case["program"], case["early"]) if "program" in case else (case, None)
+    if early is not None and early >= len(program["top"]["items"]):
+        early = None
     st = P.stats(program)
     unsupported = [k for k in st["kinds"] if k not in GATE and k not in ("Barrier",) + tuple(P.ANNOT)]
     annot = [k for k in st["kinds"] if k in P.ANNOT]
@@ -247,17 +253,26 @@ def body(case, ctx):
                        + ("o" if (f[2] is not None and f[3] is not None and f[4] is not None) else ""))
     ctx.case(case, nontrivial=bool(unsupported) and bool(annot) and st["nesting"] > 0, classes=[
         f"unsupported={bool(unsupported)}", f"annotation={bool(annot)}", f"nesting={st['nesting']}",
-        f"reps={st['n_reps_gt1'] > 0}"] + [f"detector_shape={s}" for s in sorted(shapes)])
+        f"reps={st['n_reps_gt1'] > 0}", f"early_export={early is not None}"] + [f"detector_shape={s}" for s in sorted(shapes)])
     facts = {"kinds": st["kinds"]}
     b = exp1 = got1 = None
+    partial = []
+
+    def peek(decl, p, it):
+        if len(p) == 1 and p[0] == early:
+            partial.append((stim_tokens(to_stim(decl)), expected_tokens(decl.circuit_structure)))
+
     with ctx.lib("build + export"):
-        b = P.build(program)
+        b = P.build(program, peek=peek if early is not None else None)
         e1 = to_stim(b.circuit)
         got1 = stim_tokens(e1)
         n_meas1 = e1.num_measurements
         exp1 = expected_tokens(b.circuit.circuit_structure)
     if exp1 is None:
         return
+    for got0, exp0 in partial:
+        if got0 != exp0:
+            ctx.fail("export-unfinished", f"export of the circuit before item {early} was added differs from its translated listing: {first_diff(exp0, got0)}", facts)
     if got1 != exp1:
         ctx.fail("export-built", f"export of the built circuit differs from its translated listing: {first_diff(exp1, got1)}", facts)
     want = program_token_multiset(program["top"])
@@ -266,15 +281,20 @@ def body(case, ctx):
         extra = [k for k in multiset(got1) if want.get(k, 0) < multiset(got1)[k]][:3]
         ctx.fail("export-vs-program", f"exported instructions are not the image of the operations that were added: "
                  f"missing {missing}, unexpected {extra}", facts)
-    exp2 = got2 = None
+    exp2 = got2 = got3 = exp3 = None
     with ctx.lib("unroll + export"):
         mod = b.circuit.apply_modifiers()
         e2 = to_stim(mod)
         got2 = stim_tokens(e2)
         n_meas2 = e2.num_measurements
         exp2 = [t for t in (translate(o) for o in mod.operations) if t is not None]
+        # the object that was unrolled, exported once more: still the image of what it lists now
+        got3 = stim_tokens(to_stim(b.circuit))
+        exp3 = expected_tokens(b.circuit.circuit_structure)
     if exp2 is None:
         return
+    if got3 != exp3:
+        ctx.fail("export-again", f"second export of the same circuit object (unrolled in between) differs from its translated listing: {first_diff(exp3, got3)}", facts)
     if got2 != exp2:
         ctx.fail("export-unrolled", f"export of the unrolled circuit differs from its translated listing: {first_diff(exp2, got2)}", facts)
     if True:
